@@ -71,6 +71,8 @@ func genConfig(rng *simcore.RNG, env *simcore.Env) simcore.Op {
 	c["flip"] = rng.Bool(0.15) // single-byte flip anywhere: relaxed oracle, separate configuration
 	c["sweep"] = rng.Bool(0.5)
 	c["big"] = rng.Bool(0.3) // records larger than the 40 KiB bufio buffer
+	// the group may already have a long history: rotated files with 3- and 4-digit indices
+	c["start_index"] = []int{0, 0, 0, 7, 996, 9997}[rng.Intn(6)]
 	return c
 }
 
@@ -105,6 +107,22 @@ type sim struct {
 func newSim(env *simcore.Env, cfg simcore.Op) simcore.Sim {
 	s := &sim{env: env, cfg: cfg, dir: filepath.Join(env.MkScratch(), "wal"), opsLeft: cfg.Int("nops")}
 	os.MkdirAll(s.dir, 0o700)
+	if si := cfg.Int("start_index"); si > 0 {
+		// one rotated file "wal.<si-1>" holding a valid record, as a long-lived group would have
+		// (its older files pruned): the head then has index si
+		var buf bytes.Buffer
+		m := cs.EndHeightMessage{Height: 0}
+		r := rec{seq: s.seq, canon: canonOf(tmtime.Now(), m), synced: true, file: si - 1, endH: 0, auto: true}
+		s.seq++
+		if err := cs.NewWALEncoder(&buf).Encode(&cs.TimedWALMessage{Time: tmtime.Now(), Msg: m}); err != nil {
+			panic(err)
+		}
+		if err := os.WriteFile(filepath.Join(s.dir, fmt.Sprintf("wal.%03d", si-1)), buf.Bytes(), 0o600); err != nil {
+			panic(err)
+		}
+		s.j = append(s.j, r)
+		s.headIdx = si
+	}
 	if err := s.open(s.dir); err != nil {
 		panic(err)
 	}
